@@ -1,4 +1,4 @@
-package locate
+package rawkv
 
 import (
 	"bytes"
@@ -11,16 +11,16 @@ import (
 	"github.com/tikv/pd/client/pkg/caller"
 )
 
-// zzPD is a harness PD: it answers region queries from a ground-truth layout.
-// Only the methods the region cache uses are implemented; any other call hits
-// the nil embedded interface and panics (which the engine reports).
+// zzPD is a harness PD (same idiom as harness/internal/locate/zz_c09_pd.go): it
+// answers region queries from the current ground-truth layout. Only the methods
+// the region cache uses are implemented; any other call hits the nil embedded
+// interface and panics (which the engine reports).
 type zzPD struct {
 	pd.Client
 	regions []*metapb.Region // sorted by start key, tiling the key space
 	leaders []*metapb.Peer
 	stores  []*metapb.Store
 	calls   int
-	scans   int // ScanRegions + BatchScanRegions calls
 }
 
 func (p *zzPD) WithCallerComponent(caller.Component) pd.Client { return p }
@@ -68,22 +68,37 @@ func (p *zzPD) GetRegionByID(ctx context.Context, id uint64, opts ...opt.GetRegi
 	return nil, nil
 }
 
-// zzIvIntersects: [s1,e1) and [s2,e2) share a point (empty end = +inf).
-func zzIvIntersects(s1, e1, s2, e2 []byte) bool {
-	return (len(e2) == 0 || bytes.Compare(s1, e2) < 0) && (len(e1) == 0 || bytes.Compare(s2, e1) < 0)
+func (p *zzPD) ScanRegions(ctx context.Context, key, endKey []byte, limit int, opts ...opt.GetRegionOption) ([]*router.Region, error) {
+	p.calls++
+	var out []*router.Region
+	for i, r := range p.regions {
+		if len(r.EndKey) != 0 && bytes.Compare(r.EndKey, key) <= 0 {
+			continue
+		}
+		if len(endKey) != 0 && bytes.Compare(r.StartKey, endKey) >= 0 {
+			break
+		}
+		out = append(out, p.wrap(i))
+		if limit > 0 && len(out) >= limit {
+			break
+		}
+	}
+	return out, nil
 }
 
-// scan: every truth region that shares a point with one of the ranges, in key
-// order, each once, at most limit (limit <= 0: no limit). This is the contract
-// of PD's ScanRegions/BatchScanRegions for sorted, non-empty ranges.
-func (p *zzPD) scan(ranges []router.KeyRange, limit int) []*router.Region {
+func (p *zzPD) BatchScanRegions(ctx context.Context, ranges []router.KeyRange, limit int, opts ...opt.GetRegionOption) ([]*router.Region, error) {
+	p.calls++
 	var out []*router.Region
 	for i, r := range p.regions {
 		hit := false
 		for _, kr := range ranges {
-			if !hit && zzIvIntersects(r.StartKey, r.EndKey, kr.StartKey, kr.EndKey) {
-				hit = true
+			if len(r.EndKey) != 0 && bytes.Compare(r.EndKey, kr.StartKey) <= 0 {
+				continue
 			}
+			if len(kr.EndKey) != 0 && bytes.Compare(r.StartKey, kr.EndKey) >= 0 {
+				continue
+			}
+			hit = true
 		}
 		if hit {
 			out = append(out, p.wrap(i))
@@ -92,19 +107,7 @@ func (p *zzPD) scan(ranges []router.KeyRange, limit int) []*router.Region {
 			}
 		}
 	}
-	return out
-}
-
-func (p *zzPD) ScanRegions(ctx context.Context, key, endKey []byte, limit int, opts ...opt.GetRegionOption) ([]*router.Region, error) {
-	p.calls++
-	p.scans++
-	return p.scan([]router.KeyRange{{StartKey: key, EndKey: endKey}}, limit), nil
-}
-
-func (p *zzPD) BatchScanRegions(ctx context.Context, keyRanges []router.KeyRange, limit int, opts ...opt.GetRegionOption) ([]*router.Region, error) {
-	p.calls++
-	p.scans++
-	return p.scan(keyRanges, limit), nil
+	return out, nil
 }
 
 func (p *zzPD) GetStore(ctx context.Context, id uint64, opts ...opt.GetStoreOption) (*metapb.Store, error) {
@@ -120,21 +123,29 @@ func (p *zzPD) GetAllStores(ctx context.Context, opts ...opt.GetStoreOption) ([]
 	return p.stores, nil
 }
 
-// zzLayout builds n regions split at the given strictly increasing keys.
-func zzLayout(splits [][]byte) *zzPD {
-	p := &zzPD{}
-	p.stores = []*metapb.Store{{Id: 1, Address: "s1"}, {Id: 2, Address: "s2"}, {Id: 3, Address: "s3"}}
+// setLayout installs len(splits)+1 regions split at the given strictly
+// increasing keys. Region i gets id idBase+i and epoch version ver.
+func (p *zzPD) setLayout(splits [][]byte, idBase uint64, ver uint64) {
+	p.regions = nil
+	p.leaders = nil
 	var start []byte
 	for i := 0; i <= len(splits); i++ {
 		var end []byte
 		if i < len(splits) {
 			end = splits[i]
 		}
-		peers := []*metapb.Peer{{Id: uint64(100 + 10*i + 1), StoreId: 1}, {Id: uint64(100 + 10*i + 2), StoreId: 2}, {Id: uint64(100 + 10*i + 3), StoreId: 3}}
-		p.regions = append(p.regions, &metapb.Region{Id: uint64(10 + i), StartKey: start, EndKey: end,
-			RegionEpoch: &metapb.RegionEpoch{ConfVer: 1, Version: 1}, Peers: peers})
+		id := idBase + uint64(i)
+		peers := []*metapb.Peer{{Id: id*10 + 1, StoreId: 1}, {Id: id*10 + 2, StoreId: 2}, {Id: id*10 + 3, StoreId: 3}}
+		p.regions = append(p.regions, &metapb.Region{Id: id, StartKey: start, EndKey: end,
+			RegionEpoch: &metapb.RegionEpoch{ConfVer: 1, Version: ver}, Peers: peers})
 		p.leaders = append(p.leaders, peers[0])
 		start = end
 	}
+}
+
+func zzNewPD(splits [][]byte) *zzPD {
+	p := &zzPD{}
+	p.stores = []*metapb.Store{{Id: 1, Address: "s1"}, {Id: 2, Address: "s2"}, {Id: 3, Address: "s3"}}
+	p.setLayout(splits, 10, 1)
 	return p
 }
